@@ -195,7 +195,7 @@ pub fn run_config(cfg: &Config, seed: u64, steps: usize, trace: &mut String, obs
     // 2b. the configured memory limit is the one the eviction policy enforces: below it
     // nothing is lost; pushed beyond it, what stays stored is pinned to (limit - one
     // record, limit + one record]
-    if cfg.policy == "random" {
+    if cfg.policy == "random" && cfg.mem_limit <= (1 << 20) {
         let mut s = TcpStream::connect(addr).unwrap();
         s.set_nodelay(true).unwrap();
         let _ = exchange(&mut s, &Req::new(op::FLUSH).opaque(1).bytes(), 0xcc00_0000, Duration::from_secs(5));
@@ -299,7 +299,8 @@ pub fn configs(seed: u64, n: usize, base_port: u16) -> Vec<Config> {
                 1 + rng.below(4) as u32,
             )
         };
-        let mem_limit = if policy == "random" && item_size <= 4096 { mems[i % mems.len()] } else { 64 << 20 };
+        // a memory limit small enough to probe, whenever the generated program cannot come near it
+        let mem_limit = if policy == "random" && item_size <= 4096 { mems[i % mems.len()] } else if policy == "random" && item_size <= 65536 { 1 << 20 } else { 64 << 20 };
         out.push(Config { runtime, threads, policy, item_size, conn_limit, mem_limit, port: base_port + i as u16 });
     }
     out
